@@ -24,7 +24,7 @@ structure Cfg where
   cap : Nat → Nat
 
 def jcfg (c : Cfg) : JoinWG.Cfg :=
-  { n := c.n, items := c.items, cap := c.cap, chanForm := true, ocap := c.bcap }
+  { n := c.n, items := c.items, cap := c.cap, chanForm := true, ocap := c.bcap, seen := fun _ => false }
 
 /-- stage-1 forwarder (deriveFmap's goroutine): `for a := range b { c := g(a); out <- c }; close(out)` -/
 inductive MPc
